@@ -200,6 +200,10 @@ JudgeOut judge(const json &plan)
 			model.erase(key);
 			continue;
 		}
+		if (o.op == "getters" && o.has_sres && o.sres.find("MISMATCH") != std::string::npos) {
+			out.viol.push_back({"getter-mismatch", "step #" + std::to_string(o.index) + ": a by-name accessor disagrees with its by-option counterpart: " + o.sres.substr(0, 300) + "\n" + st.dump().substr(0, 200), nullptr});
+			break;
+		}
 		if (!model.count(key) || o.skipped)
 			continue;
 		std::string why;
